@@ -62,14 +62,21 @@ def run_unit(prop, unit, probe=False, no_hints=False, extra_requires=None, only_
     text, info = A.assemble(path, probe=probe, no_hints=no_hints, extra_requires=extra_requires)
     out = os.path.join(BUILD, "%s%s%s.rs" % (unit, "_probe" if probe else "", tag))
     open(out, "w").write(text)
-    extra = []
+    # imported units live in `mod verif_imported` and are proved by their own unit: verify the root module only
+    extra = ["--verify-root"]
     if only_fn:
         extra = ["--verify-root", "--verify-function", only_fn]
     res = RV.run(out, extra=extra)
     spans = RV.map_lines_to_fns(text)
-    for f in res.failures:
+    for f in res.failures + res.resource:
         f["fn"] = RV.fn_at(spans, f["line"])
         f["unit"] = unit
+    # a resource limit inside a vacuity-probe twin means `ensures false` could not be proved: that is the wanted outcome
+    for f in res.resource:
+        if probe and (f.get("fn") or "").startswith("probe:"):
+            res.failures.append(f)
+        elif not res.undecided:
+            res.undecided = "resource limit in %s: %s" % (f.get("fn"), f["message"])
     return text, info, res
 
 
